@@ -8,7 +8,7 @@ from mc.ref import ips
 
 ID = "C13"
 LEVEL = "model_checking"
-LEVEL_TEXT = ("Explicit enumeration of all IPS record sequences of length <=3 over 11 record kinds (plain 1/3/65535 bytes, run-length "
+LEVEL_TEXT = ("Explicit enumeration of all IPS record sequences of length <=3 over 11 record kinds (15 for lengths 1-2: also two runs of the same fill value and records that touch the host program's own bytes; plain 1/3/65535 bytes, run-length "
               "1/4/65535, adjacent to the previous record, offset 0, offset 0xFFFFFE, payload / size+payload spelling 'EOF') x 7 deltas (zero, positive, negative, negative "
               "result, constant expression) x 6 placements of the directive in a host program (incl. the same file included twice, the directive in a macro applied twice with the delta as parameter, and the "
               "same program assembled twice in one process), assembled by the real assembler; the "
@@ -22,7 +22,10 @@ RULE = ("state = record sequence of the included file (+delta, placement); trans
         "Malformed family: one evaluation per byte-prefix / header variant.")
 ASSUMPTIONS = ["strict IPS reader mc/ref/ips.py decides well-formedness", "rejected = error return or any exception"]
 
-KINDS = ["p1", "p3", "pmax", "r1", "r4", "rmax", "adj", "off0", "offhi", "peof", "seof"]
+KINDS = ["p1", "p3", "pmax", "r1", "r4", "rmax", "adj", "off0", "offhi", "peof", "seof",
+         # (sequences of length 3 use the 11 kinds above; these four only appear in sequences of length 1 and 2)
+         "rs4", "rs16", "hostafter", "hostbefore"]
+NCORE = 11
 # "dr" is a := symbol that is assigned AGAIN after the directive: the delta is its value at the directive
 DELTAS = [("0", 0), ("0x10", 0x10), ("0x200", 0x200), ("0-8", -8), ("NEG", None), ("dd+4", 0x24), ("dr", 0x30)]
 PLACES = ["first", "between", "last", "block", "twice", "macro-param"]
@@ -36,7 +39,7 @@ def bound(tier):
 
 def cases(tier, seed):
     for n in ((1, 2, 3, 4) if tier == "thorough" else (1, 2, 3)):
-        for first in itertools.product(range(len(KINDS)), repeat=n - 1):
+        for first in itertools.product(range(len(KINDS) if n <= 2 else NCORE), repeat=n - 1):
             yield ("seq", first)
     yield ("malformed",)
     # file-size family: one plain record of EVERY length in a range (after an optional leading record), so that the end
@@ -79,6 +82,14 @@ def make_records(kind_idx):
             r = (base, b"THEOFFSET" + bytes([salt & 0xFF]), "plain")         # payload contains the bytes 'EOF'
         elif k == "seof":
             r = (base, b"F" + bytes((i * 5 + salt) & 0xFF for i in range(0x454F - 1)), "plain")  # size 0x454F then 'F': header+payload spell EOF
+        elif k == "rs4":
+            r = (base, (4, 0x5A), "rle")          # two runs of the SAME fill value, the later one longer
+        elif k == "rs16":
+            r = (base + 0x800, (16, 0x5A), "rle")
+        elif k == "hostafter":
+            r = (0x8008, bytes([(0xC0 + salt) & 0xFF, 0xC1]), "plain")   # right after the host program's own bytes (file offsets 0x8000-0x8007)
+        elif k == "hostbefore":
+            r = (0x7FFE, bytes([(0xC8 + salt) & 0xFF, 0xC9]), "plain")   # ends on the byte just before them
         elif k == "adj":
             r = (prev_end if prev_end <= 0xFFFFF0 else base, bytes([(0x77 + salt) & 0xFF, 0x78]), "plain")
         elif k == "off0":
@@ -111,7 +122,7 @@ def run_seq(prefix):
     evals = nt = states = 0
     outcomes = set()
     example = None
-    for last in range(len(KINDS)):
+    for last in range(len(KINDS) if len(prefix) <= 1 else NCORE):
         kinds = tuple(prefix) + (last,)
         recs = make_records(kinds)
         data = ips.build(recs)
